@@ -5,6 +5,10 @@ import BppModel.Text.Number
 import BppModel.Text.Glob
 import BppModel.Text.Keyval
 import BppModel.Text.Vars
+import BppModel.Text.TokenizerU
+import BppModel.Text.TokRT
+import BppModel.Text.TableRT
+import BppModel.Text.NumFmt
 /-
 Driver for C17 (round trips and exact grammars).  Stateless: every op carries its inputs.
 Strings are hex-escaped; the implementation's doubles arrive as 16 hex digits, the model's
@@ -54,14 +58,15 @@ def numVerdict (dec sci : Char) (s : Str) (impl : Option (List String)) : String
       let v1 := match pd with
         | none => if idbl == "exc:bpp" then "ok" else "FAIL:toDouble_raises"
         | some p =>
-          -- the stream reads '.' and e/E whatever `dec`/`sci` are: the value clause is about those
-          if nearestDouble idbl p.value then "ok"
-          else if dec == '.' && (sci == 'e' || sci == 'E') then "FAIL:toDouble_value"
-          else "FAIL:toDouble_value_custom_chars"
+          -- whatever usable `dec` / `sci` the caller chose (toDouble translates them for the stream)
+          if nearestDouble idbl p.value then "ok" else "FAIL:toDouble_value"
       if v1 != "ok" then v1
       else match pi with
         | none => if iintv == "exc:bpp" then "ok" else "FAIL:toInt_raises"
-        | some p => if iintv == toString (Number.clampInt p.value) then "ok" else "FAIL:toInt_value"
+        | some p =>
+          -- the grammar's value when it is an `int`, an exception otherwise
+          let want := if Number.intMin ≤ p.value && p.value ≤ Number.intMax then toString p.value else "exc:bpp"
+          if iintv == want then "ok" else "FAIL:toInt_value"
   | some _ => "FAIL:parse"
 
 def showMap (m : Keyval.Map) : String :=
@@ -104,24 +109,42 @@ def step (s : Unit) (op : List String) (impl : Option (List String)) : Unit × S
         | some _ => "FAIL:parse"
       (s, out, verdict)
     | none => (s, "bad-op", "-")
-  | ["dbl.rt", hd, _prec] =>
-    -- not modelled (ostream formatting): the expected answer is the input itself; the verdict reads
-    -- the text the implementation produced: it must be in the grammar, denote a value whose
-    -- nearest double is the input, and parse back to the input
-    let verdict := match impl with
-      | none => "-"
-      | some [back, htxt] =>
-        match unhex htxt with
-        | none => "FAIL:parse"
-        | some txt =>
-          match Number.parseDecimal '.' 'e' txt with
-          | none => "FAIL:double_format_in_grammar"
-          | some p =>
-            if back != hd then "FAIL:double_roundtrip"
-            else if !nearestDouble hd p.value then "FAIL:double_format_value"
-            else "ok"
-      | some _ => "FAIL:double_roundtrip"
-    (s, hd, verdict)
+  | ["dbl.rt", hd, prec] =>
+    -- the model formats the exact value of the double (`NumFmt.toStringPrec`, the `%.{P}g` conversion)
+    -- and the text must be the implementation's; the verdict reads the text the implementation
+    -- produced: it must be in the grammar, denote the rounding of the input to `prec` significant
+    -- digits (`NumFmt.roundedValue`: the input itself when it has no more digits), whose nearest double
+    -- is the input when `prec` is 17, and parse back to it
+    let sa : Option (Bool × Rat) :=
+      match if hd.length == 16 then Hex.toNat? hd else none with
+      | none => none
+      | some bits =>
+        let e := (bits >>> 52) % 2048
+        let m := bits % (2 ^ 52)
+        if e == 2047 then none
+        else
+          let (mant, ex) : Nat × Int := if e == 0 then (m, -1074) else (m + 2 ^ 52, (e : Int) - 1075)
+          some (bits >>> 63 == 1, ((mant : Nat) : Rat) * pow2 ex)
+    match sa, nat? prec with
+    | some (neg, a), some pr =>
+      let txt := NumFmt.toStringPrec pr neg a
+      let verdict := match impl with
+        | none => "-"
+        | some [back, htxt] =>
+          match unhex htxt with
+          | none => "FAIL:parse"
+          | some t =>
+            match Number.parseDecimal '.' 'e' t with
+            | none => "FAIL:double_format_in_grammar"
+            | some p =>
+              if p.value != NumFmt.roundedValue pr neg a then "FAIL:toString_value"
+              else if NumFmt.fitsPrec pr a && p.value != (if neg then -a else a) then "FAIL:toString_roundtrip_exact"
+              else if pr ≥ 17 && back != hd then "FAIL:double_roundtrip"
+              else if pr ≥ 17 && !nearestDouble hd p.value then "FAIL:double_format_value"
+              else "ok"
+        | some _ => "FAIL:double_roundtrip"
+      (s, (if pr ≥ 17 then hd else "*") ++ " " ++ hex txt, verdict)
+    | _, _ => (s, "bad-op", "-")
   | ["glob", hp, hn] =>
     match unhex hp, unhex hn with
     | some pat, some name =>
@@ -234,6 +257,282 @@ def step (s : Unit) (op : List String) (impl : Option (List String)) : Unit × S
     | none => (s, "bad-op", "-")
   | _ => (s, "bad-op", "-")
 
-def machine : Machine Unit := { init := fun _ => (), step := step }
+/-! ## round 2: tokenizer / table / distribution round trips -/
+
+open Bpp.Text.U Bpp.Text.RT in
+def showErr : Err → String
+  | .ub => "ub" | .std => "exc:std" | .bpp => "exc:bpp" | .hang => "hang"
+
+def showStrs (l : List Str) : String :=
+  toString l.length ++ String.join (l.map (fun t => " " ++ hex t))
+
+def unhexList : List String → Option (List Str)
+  | [] => some []
+  | h :: r =>
+    match unhex h, unhexList r with
+    | some s, some l => some (s :: l)
+    | _, _ => none
+
+/-- `n h1 … hn` -/
+def parseStrs : List String → Option (List Str)
+  | [] => none
+  | n :: hs =>
+    match nat? n, unhexList hs with
+    | some n, some l => if l.length == n then some l else none
+    | _, _ => none
+
+open Bpp.Text.U Bpp.Text.RT in
+/-- `st.rt`: constructor, `unparseRemainingTokens`, `min k n` calls of `nextToken`, unparse again,
+one more `nextToken` when every token was read -/
+def stRtModel (s d : Str) (solid ae : Bool) (k : Nat) : String :=
+  match mkTokenizer s d solid ae with
+  | .error e => showErr e
+  | .ok T =>
+    let kk := min k T.tokens.length
+    match T.unparseRemainingTokens, nextN kk T with
+    | .ok u0, .ok (toks, T') =>
+      match T'.unparseRemainingTokens with
+      | .ok uk =>
+        let e := if kk == T.tokens.length then (match T'.nextToken with | .error .bpp => "x" | _ => "!") else "-"
+        showStrs T.tokens ++ " / " ++ showStrs T.splits ++ " / " ++ hex u0 ++ " / " ++ showStrs toks ++ " / "
+          ++ hex uk ++ " / " ++ e
+      | .error e => showErr e
+    | .error e, _ => showErr e
+    | _, .error e => showErr e
+
+open Bpp.Text.U Bpp.Text.RT in
+/-- the predicates of `Props/C17Tokenizer.lean` on the implementation's answer -/
+def stRtVerdict (s d : Str) (solid ae : Bool) (k : Nat) (impl : Option (List String)) : String :=
+  match impl with
+  | none => "-"
+  | some t =>
+    match splitTok "/" t with
+    | [ptoks, psplits, [hu0], pk, [huk], [e]] =>
+      match parseStrs ptoks, parseStrs psplits, unhex hu0, parseStrs pk, unhex huk with
+      | some tokens, some splits, some u0, some ktoks, some uk =>
+        let kk := min k tokens.length
+        if !ctorRtOk s d solid ae tokens splits u0 then "FAIL:unparse_tokenize"
+        else if ktoks != tokens.take kk || !advanceRtOk tokens splits kk u0 uk
+            || (kk == tokens.length && e != "x") then "FAIL:unparse_after_next"
+        else "ok"
+      | _, _, _, _, _ => "FAIL:parse"
+    | _ => "-"                                                    -- raised: nothing to judge here
+
+open Bpp.Text.U Bpp.Text.RT in
+/-- `nst.rt`: the same script on a NestedStringTokenizer -/
+def nstRtModel (s op en d : Str) (solid : Bool) (k : Nat) : String :=
+  match mkNested s op en d solid with
+  | .error e => showErr e
+  | .ok T =>
+    let kk := min k T.tokens.length
+    match T.unparseRemainingTokens, nextN kk T with
+    | .ok u0, .ok (toks, T') =>
+      match T'.unparseRemainingTokens with
+      | .ok uk =>
+        let e := if kk == T.tokens.length then (match T'.nextToken with | .error .bpp => "x" | _ => "!") else "-"
+        showStrs T.tokens ++ " / " ++ showStrs T.splits ++ " / " ++ hex u0 ++ " / " ++ showStrs toks ++ " / "
+          ++ hex uk ++ " / " ++ e
+      | .error e => showErr e
+    | .error e, _ => showErr e
+    | _, .error e => showErr e
+
+open Bpp.Text.U Bpp.Text.RT in
+/-- the predicates of `Props/C17Nested.lean` on the implementation's answer -/
+def nstRtVerdict (s op en d : Str) (solid : Bool) (k : Nat) (impl : Option (List String)) : String :=
+  match impl with
+  | none => "-"
+  | some t =>
+    match splitTok "/" t with
+    | [ptoks, psplits, [hu0], pk, [huk], [e]] =>
+      match parseStrs ptoks, parseStrs psplits, unhex hu0, parseStrs pk, unhex huk with
+      | some tokens, some splits, some u0, some ktoks, some uk =>
+        let kk := min k tokens.length
+        if !nestedRtOk s d solid tokens splits u0 then "FAIL:nested_rejoin"
+        else if (match saneBrackets op en d with
+                 | some (o, c) => !nestedDepthOk d o c solid tokens
+                 | none => false) then "FAIL:nested_balanced_all"
+        else if ktoks != tokens.take kk || !advanceRtOk tokens splits kk u0 uk
+            || (kk == tokens.length && e != "x") then "FAIL:nested_unparse_after_next"
+        else "ok"
+      | _, _, _, _, _ => "FAIL:parse"
+    | _ => "-"                                                    -- raised: nothing to judge here
+
+/-! ### tables -/
+
+open Bpp.Text.U in
+def showTbl (t : Tbl) : String :=
+  toString t.nCol ++ " " ++ toString t.rows.length ++ " " ++ showStrs t.colNames ++ " " ++ showStrs t.rowNames
+    ++ String.join (t.rows.map (fun r => String.join (r.map (fun x => " " ++ hex x))))
+
+/-- `k` items, then the rest -/
+def takeStrs (k : Nat) (l : List String) : Option (List Str × List String) :=
+  if l.length < k then none
+  else match unhexList (l.take k) with
+    | some x => some (x, l.drop k)
+    | none => none
+
+/-- the rows of the op line: `nRows` times (`name`?) `nCol` cells -/
+def parseRows (hasRow : Bool) (nCol : Nat) : Nat → List String → Option (List (Option Str × List Str))
+  | 0, [] => some []
+  | 0, _ :: _ => none
+  | k + 1, l =>
+    match (if hasRow then takeStrs 1 l else some ([], l)) with
+    | none => none
+    | some (nm, l1) =>
+      match takeStrs nCol l1 with
+      | none => none
+      | some (cells, l2) =>
+        match parseRows hasRow nCol k l2 with
+        | none => none
+        | some rest => some ((if hasRow then nm.head? else none, cells) :: rest)
+
+open Bpp.Text.U Bpp.Text.RT in
+/-- `tbl.rt <sep> <align> <nCol> <hasCol> <hasRow> <nRows> items…`: build, write, read back -/
+def tblRt (sep : Str) (align : Bool) (nCol : Nat) (colNames : List Str) (rows : List (Option Str × List Str))
+    (impl : Option (List String)) : String × String :=
+  match buildTbl nCol colNames rows with
+  | .error e => ("build:" ++ showErr e, "-")
+  | .ok t =>
+    match writeTable t sep align with
+    | .error e => ("write:" ++ showErr e, "-")
+    | .ok text =>
+      let back := readBack t text sep
+      let out := hex text ++ " / " ++ (match back with | .ok t' => showTbl t' | .error e => showErr e)
+      -- table_roundtrip on the implementation's answer: under the side conditions the table read
+      -- back is the table written
+      let verdict := match impl, sep with
+        | none, _ => "-"
+        | some ans, [c] =>
+          if RtWFcore t c then
+            (match splitTok "/" ans with
+             | [_, back'] => if " ".intercalate back' == showTbl t then "ok" else "FAIL:table_roundtrip"
+             | _ => "FAIL:table_roundtrip")
+          else "-"
+        | some _, _ => "-"
+      (out, verdict)
+
+/-! ### distribution descriptions (explored: the model has no distribution classes; the verdict reads
+the implementation's trace — the description written, the distribution before and after) -/
+
+/-- the finite double with this bit pattern, as a rational -/
+def ratOfHex (hex : String) : Option Rat :=
+  match if hex.length == 16 then Hex.toNat? hex else none with
+  | none => none
+  | some bits =>
+    let neg := bits >>> 63 == 1
+    let e := (bits >>> 52) % 2048
+    let m := bits % (2 ^ 52)
+    if e == 2047 then none
+    else
+      let (mant, ex) : Nat × Int := if e == 0 then (m, -1074) else (m + 2 ^ 52, (e : Int) - 1075)
+      some ((if neg then -1 else 1) * ((mant : Nat) : Rat) * pow2 ex)
+
+/-- `|a - b| ≤ (1 + |a|) / scale` on two bit patterns -/
+def closeHex (scale : Nat) (a b : String) : Bool :=
+  a == b || (match ratOfHex a, ratOfHex b with
+    | some x, some y => decide (ratAbs (x - y) * (scale : Rat) ≤ 1 + ratAbs x)
+    | _, _ => false)
+
+/-- `family n v1 … vn p1 … pn P k name1 val1 …` -/
+structure DistTrace where
+  family : String
+  n : Nat
+  values : List String
+  probs : List String
+  params : List (String × String)
+
+def pairUp : List String → List (String × String)
+  | a :: b :: r => (a, b) :: pairUp r
+  | _ => []
+
+def parseDistTrace (t : List String) : Option DistTrace :=
+  match splitTok "P" t with
+  | [fam :: n :: nums, _k :: ps] =>
+    match nat? n with
+    | some n => if nums.length == 2 * n then some ⟨fam, n, nums.take n, nums.drop n, pairUp ps⟩ else none
+    | none => none
+  | _ => none
+
+/-- the parameters the two distributions have in common have the same values, bit for bit -/
+def sameParams (a b : DistTrace) : Bool :=
+  b.params.all (fun p => match a.params.lookup p.1 with
+    | some v => v == p.2
+    | none => true)
+
+/-- the textual layer: the description parses (KeyvalTools model) into the family name and an
+argument map; the families with a class count carry it as `n`; every plain argument is a numeral of
+the strict decimal grammar -/
+def distTextOk (desc : Str) (a : DistTrace) : Bool :=
+  match Keyval.parseProcedure desc with
+  | none => false
+  | some (name, args) =>
+    String.ofList name == a.family
+    && (match Keyval.mapFind "n".toList args with
+        | some v => v == (toString a.n).toList || a.family == "Invariant" || a.family == "Mixture"
+        | none => a.family == "Invariant" || a.family == "Mixture" || a.family == "Simple" || a.family == "Constant")
+    && args.all (fun kv =>
+        kv.2.contains '(' || (Number.parseDecimal '.' 'e' kv.2).isSome)
+
+def distVerdict (impl : Option (List String)) : String :=
+  match impl with
+  | none => "-"
+  | some t =>
+    match splitTok "/" t with
+    | [[hdesc], ta, tb] =>
+      match unhex hdesc, parseDistTrace ta with
+      | some desc, some a =>
+        if !distTextOk desc a then "FAIL:dist_text"
+        else if tb == ["exc:bpp"] then "FAIL:dist_reads_back"
+        else match parseDistTrace tb with
+          | none => "FAIL:parse"
+          | some b =>
+            if a.family != b.family || a.n != b.n then "FAIL:dist_family"
+            else
+              -- the parameters came back bit for bit: the classes agree to 1e-8 (the discretisation
+              -- is not bit-reproducible across construction histories); they were rounded by the
+              -- text (12 decimals, or the precision of the stream): to 1e-5
+              let scale := if sameParams a b then 100000000 else 100000
+              if (a.values.zip b.values).all (fun p => closeHex scale p.1 p.2)
+                 && (a.probs.zip b.probs).all (fun p => closeHex scale p.1 p.2) then "ok"
+              else if sameParams a b then "FAIL:dist_values" else "FAIL:dist_values_rounded"
+      | _, _ => "FAIL:parse"
+    | _ => "-"                                                    -- could not be built / written
+
+def stepRT (s : Unit) (op : List String) (impl : Option (List String)) : Unit × String × String :=
+  match op with
+  | ["st.rt", hs, hd, so, al, k] =>
+    match unhex hs, unhex hd, nat? k with
+    | some str, some d, some k =>
+      (s, stRtModel str d (so == "1") (al == "1") k, stRtVerdict str d (so == "1") (al == "1") k impl)
+    | _, _, _ => (s, "bad-op", "-")
+  | ["nst.rt", hs, ho, he, hd, so, k] =>
+    match unhex hs, unhex ho, unhex he, unhex hd, nat? k with
+    | some str, some o, some e, some d, some k =>
+      (s, nstRtModel str o e d (so == "1") k, nstRtVerdict str o e d (so == "1") k impl)
+    | _, _, _, _, _ => (s, "bad-op", "-")
+  | "tbl.rt" :: hsep :: al :: nc :: hc :: hr :: nr :: items =>
+    match unhex hsep, nat? nc, nat? nr with
+    | some sep, some nCol, some nRows =>
+      match (if hc == "1" then takeStrs nCol items else some ([], items)) with
+      | none => (s, "bad-op", "-")
+      | some (colNames, rest) =>
+        match parseRows (hr == "1") nCol nRows rest with
+        | none => (s, "bad-op", "-")
+        | some rows =>
+          let (out, v) := tblRt sep (al == "1") nCol colNames rows impl
+          (s, out, v)
+    | _, _, _ => (s, "bad-op", "-")
+  | "dist.rt" :: _ => (s, "?", distVerdict impl)
+  | _ => (s, "bad-op", "-")
+
+def step' (s : Unit) (op : List String) (impl : Option (List String)) : Unit × String × String :=
+  match op with
+  | "st.rt" :: _ => stepRT s op impl
+  | "nst.rt" :: _ => stepRT s op impl
+  | "tbl.rt" :: _ => stepRT s op impl
+  | "dist.rt" :: _ => stepRT s op impl
+  | _ => step s op impl
+
+def machine : Machine Unit := { init := fun _ => (), step := step' }
 
 end Bpp.Drive.C17
